@@ -80,19 +80,6 @@ type fqPlan struct {
 	Size2Fails bool `json:"size2_fails,omitempty"`
 }
 
-// sizeHeadOnly: the plan fails only the loop's read-only calls Size() / Head()
-func sizeHeadOnly(ops []string) bool {
-	if len(ops) == 0 {
-		return false
-	}
-	for _, o := range ops {
-		if o != "size" && o != "head" {
-			return false
-		}
-	}
-	return true
-}
-
 // windowed: the faults of this plan are active during one time window that starts once the jobs are running
 func (p fqPlan) windowed() bool {
 	return p.Kind == "burst" || p.Kind == "spurious-empty" || p.Kind == "empty-pop"
@@ -640,20 +627,15 @@ func fqRunPlan(plan fqPlan) (rep fqReport) {
 			}
 		}
 	}
-	// call by call: after a failed loop-side Pop()/Push() no Pop()/Push()/Head() within RetryInterval (faults5.go)
+	// call by call: after a failed loop-side call no loop-side call at all within RetryInterval (faults5.go)
 	gapViol, _ := fqBackoffGaps(q.calls, fqRetry, plan)
 	rep.Violations = append(rep.Violations, gapViol...)
 	q.mu.Unlock()
+	// the same judgment for every loop-side operation: since the repair of finding F4 (known_findings.txt, "size-head-retried-per-interrupt")
+	// a failing Size() / Head() sets the back-off deadline like a failing Pop() / Push(), and the deadline is tested before Size() is asked
 	if allowed := int(plan.win()/fqRetry) + 3; plan.Traffic && failedInBurst > allowed {
-		tag := ""
-		if sizeHeadOnly(plan.Ops) {
-			// KNOWN FINDING (recorded, not repaired; known_findings.txt key size-head-retried-per-interrupt): the back-off deadline `retryAt`
-			// is set by Pop()/Push() failures only; a failing Size() or Head() merely arms the timer with RetryInterval, so every interrupt
-			// (= every successful mutating API call) makes the loop ask the failing queue again at once
-			tag = "KNOWN[size-head-retried-per-interrupt] "
-		}
-		rep.Violations = append(rep.Violations, fmt.Sprintf("C15 %sback-off not kept under API traffic: the failing loop-side call was made %d times within %v (RetryInterval %v allows %d): every interrupt retried the failing queue (%s)",
-			tag, failedInBurst, plan.win(), fqRetry, allowed, plan))
+		rep.Violations = append(rep.Violations, fmt.Sprintf("C15 back-off not kept under API traffic: the failing loop-side call was made %d times within %v (RetryInterval %v allows %d): every interrupt retried the failing queue (%s)",
+			failedInBurst, plan.win(), fqRetry, allowed, plan))
 	}
 	if plan.windowed() && rep.BurstCalls > fqBurstLimit {
 		what := "while the queue was failing"
